@@ -903,6 +903,23 @@ func exImportedElementGraphs() []*exGraph {
 				"C": m{"type": "array", "items": m{"$ref": loc + "#/definitions/other"}}, "name": m{"type": "integer"}}}
 		out = append(out, exFromGeneric(m{"file:///q/root.json": root, loc: types}, "file:///q/root.json"))
 	}
+	// two different documents whose locations differ by the scheme alone (or by the port, or by a query): used in one expansion, by
+	// absolute references, by a relative hop that inherits the scheme of its document, and by parameters of a specification
+	for _, rootLoc := range []string{"http://h.example/api/root.json", "https://h.example/api/root.json"} {
+		mk := func(who string) m {
+			return m{"swagger": "2.0", "info": m{"title": who, "version": "1"}, "paths": m{},
+				"parameters":  m{"p": m{"name": "p", "in": "body", "schema": m{"$ref": "#/definitions/T"}}},
+				"definitions": m{"T": m{"type": "string", "description": "T of " + who}, "viaRel": m{"$ref": "x.json#/definitions/T"}}}
+		}
+		root := m{"swagger": "2.0", "info": m{"title": "root", "version": "1"},
+			"paths": m{"/a": m{"get": m{"parameters": []interface{}{m{"$ref": "../defs/x.json#/parameters/p"}, m{"$ref": "https://h.example/defs/x.json#/parameters/p"},
+				m{"$ref": "http://h.example/defs/x.json#/parameters/p"}}, "responses": m{"200": m{"description": "ok"}}}}},
+			"definitions": m{"plain": m{"$ref": "http://h.example/defs/x.json#/definitions/T"}, "secure": m{"$ref": "https://h.example/defs/x.json#/definitions/T"},
+				"port": m{"$ref": "http://h.example:8080/defs/x.json#/definitions/T"}, "again": m{"$ref": "https://h.example/defs/x.json#/definitions/viaRel"},
+				"rel": m{"$ref": "../defs/x.json#/definitions/T"}}}
+		out = append(out, exFromGeneric(m{rootLoc: root, "http://h.example/defs/x.json": mk("http"), "https://h.example/defs/x.json": mk("https"),
+			"http://h.example:8080/defs/x.json": mk("port 8080")}, rootLoc))
+	}
 	return out
 }
 
@@ -1512,6 +1529,13 @@ func exExecWith(c *exCall, global bool) (o *exOutcome) {
 		}
 		if c.Entry == "base_path" {
 			result(p, spec.ExpandParameter(p, base))
+		} else if c.Entry == "cache_prefilled" {
+			cache, err := exPrefilledCache(c)
+			if err != nil {
+				fail(fmt.Errorf("decode root: %w", err))
+				return
+			}
+			result(p, spec.ExpandParameterWithRoot(p, nil, cache))
 		} else {
 			result(p, spec.ExpandParameterWithRoot(p, root, nil))
 		}
@@ -1523,6 +1547,13 @@ func exExecWith(c *exCall, global bool) (o *exOutcome) {
 		}
 		if c.Entry == "base_path" {
 			result(p, spec.ExpandResponse(p, base))
+		} else if c.Entry == "cache_prefilled" {
+			cache, err := exPrefilledCache(c)
+			if err != nil {
+				fail(fmt.Errorf("decode root: %w", err))
+				return
+			}
+			result(p, spec.ExpandResponseWithRoot(p, nil, cache))
 		} else {
 			result(p, spec.ExpandResponseWithRoot(p, root, nil))
 		}
@@ -1537,6 +1568,17 @@ func exExecWith(c *exCall, global bool) (o *exOutcome) {
 		}
 	}
 	return o
+}
+
+// exPrefilledCache: a cache in which an earlier ExpandSchema call filed the root value under its pseudo location.
+func exPrefilledCache(c *exCall) (spec.ResolutionCache, error) {
+	groot, err := exRootValue(c, "with_root_generic")
+	if err != nil {
+		return nil, err
+	}
+	cache := newExMapCache()
+	_ = spec.ExpandSchema(new(spec.Schema), groot, cache)
+	return cache, nil
 }
 
 var exTimeout = func() time.Duration {
@@ -1942,9 +1984,9 @@ func exElementCases(g *exGraph) []exElementCase {
 
 var exEntries = []string{"with_root_typed", "with_root_generic", "base_path", "cache_prefilled"}
 
-// exEntryApplies: the pre-filled cache is an entry point of the schema expander only
+// exEntryApplies: every element expander can be handed a pre-filled cache instead of a root
 func exEntryApplies(op, entry string) bool {
-	return entry != "cache_prefilled" || op == "expand_schema"
+	return true
 }
 
 // exUnionsGraph: one document whose schemas hold `items`, `additionalProperties` and `additionalItems` in each of their forms.
